@@ -19,6 +19,7 @@ from datetime import (
     timedelta,
     timezone,
 )
+from decimal import Decimal
 from io import BytesIO
 from itertools import count
 from typing import (
@@ -542,6 +543,12 @@ def _parse_float(value: Any) -> float:
     if value == NAN:
         return float("nan")
     return float(value)
+
+
+def _parse_duration(value: str) -> timedelta:
+    """Parse the JSON form of a duration, decimal seconds with an "s" suffix, exactly."""
+    seconds = Decimal(value[:-1])
+    return timedelta(microseconds=int(seconds * 10**6))
 
 
 def _dump_float(value: float) -> Union[float, str]:
@@ -1626,9 +1633,9 @@ class Message(ABC):
                     )
                 elif sub_cls == timedelta:
                     value = (
-                        [timedelta(seconds=float(item[:-1])) for item in value]
+                        [_parse_duration(item) for item in value]
                         if isinstance(value, list)
-                        else timedelta(seconds=float(value[:-1]))
+                        else _parse_duration(value)
                     )
                 elif not meta.wraps:
                     value = (
